@@ -8,13 +8,15 @@ TypeError (family `sig`) cohdl must reject.  and/or are compared by truth value 
 BoolOp in bool()).  Cases for which CPython raises anything else carry no claim and are only counted.
 
 Families (generators in verif/gen/c10_*.py; each module docstring states its grammar), bound quick | thorough:
-  sig   signatures x call shapes x placements: <=3 parameters at module level + <=2 parameters in 5 more placements
-        + duplicate-keyword shapes for <=1 parameter + one seed-chosen extra placement (<=2 parameters)
-        | <=3 parameters in all 11 placements + duplicate-keyword shapes for <=2 parameters in 6 placements
+  sig   signatures x call shapes x placements: module-level def with <=2 parameters and every call shape, with 3
+        parameters without the mixed (part direct, part spread) forms; <=2 parameters without mixed forms in 5 more
+        placements + one seed-chosen extra placement; duplicate-keyword shapes for <=1 parameter
+        | <=3 parameters, every call shape, all 11 placements + duplicate-keyword shapes for <=2 parameters in 6 placements
   ops   binary/reflected/comparison/unary/truth/augmented dunder dispatch: all operators x operand relations x
         method specs (same in both tiers)
   cls   inheritance, super(), __init__ chains, properties, __call__, class/static methods, isinstance/type matrices
-  clo   closures: all scope trees of depth 2 and 3, loop capture, recursion, higher-order idioms
+  clo   closures: all scope trees of depth 2 and 3; name-resolution chains (local / parameter / cell / outer cell /
+        module global / builtin of the same name, closures made outside and inside the context); loop capture; idioms
   expr  typed expression grammar: depth 1 (all atoms) + depth 2 (representative atoms)
         | depth 2 with all atoms of the inner operator + depth 3 chains
   stmt  starred/nested targets x sources, constant if/elif/else shapes x conditions x values, for/comprehension scoping
